@@ -3,6 +3,6 @@ From Verif Require Import Bytes Textproto SendErr RefServer SmtpSend SmtpSendGen
 Require Extraction.
 Require Import ExtrOcamlBasic.
 Extraction "model.ml"
-  SmtpSendGen.run_gen SmtpSendGen.run_reset_gen SmtpSend.all_legal SmtpSend.all_attributed
+  SmtpSendGen.run_gen SmtpSend.align SmtpSend.somes SmtpSendGen.run_reset_gen SmtpSend.all_legal SmtpSend.all_attributed
   Textproto.dot_encode Textproto.dot_decode Textproto.dotcanon
   SendErr.error_code SendErr.is_temp_error SendErr.enhanced_status_code SmtpSendGen.gen_fixes.
